@@ -355,6 +355,24 @@ func main() {
 			}
 		}
 	}
+	// damaged fetch HEADERS (the part the header programs of read.go parse; the record set itself is the message-set
+	// reader's business): one byte overwritten before the set
+	for _, v := range connfake.OpByName("fetch").Versions {
+		for i := 0; i < nfuzz; i++ {
+			magic := int8(2)
+			if v < 4 {
+				magic = 1
+			}
+			a := buildFetch(r, v, magic, 2, 1, 0, 0)
+			hdrLen := len(a.body) - len(a.sh.Set)
+			if hdrLen <= 0 {
+				continue
+			}
+			a.body = append([]byte{}, a.body...)
+			a.body[r.Intn(hdrLen)] = gen.Bytes(r, 1)[0]
+			emit(a, follower(a))
+		}
+	}
 	// partial reads: read j of the n records of a fetch response (every j, and Close at once), then Close, then the next
 	// operation — plain and every codec, one batch and two batches, message formats 1 and 2.  Batch.Close must leave
 	// the Conn at the next frame whatever was read (Conn.ReadMessage / Conn.Read read exactly one record).
